@@ -1,7 +1,7 @@
 """Home of the `RemainingOperationsObserver` class."""
 
 from job_shop_lib import ScheduledOperation
-from job_shop_lib.dispatching import UnscheduledOperationsObserver
+from job_shop_lib.dispatching import Dispatcher, UnscheduledOperationsObserver
 from job_shop_lib.dispatching.feature_observers import (
     FeatureObserver,
     FeatureType,
@@ -17,10 +17,24 @@ class RemainingOperationsObserver(FeatureObserver):
 
     _supported_feature_types = [FeatureType.MACHINES, FeatureType.JOBS]
 
-    def initialize_features(self):
-        unscheduled_ops_observer = self.dispatcher.create_or_get_observer(
+    def __init__(
+        self,
+        dispatcher: Dispatcher,
+        *,
+        subscribe: bool = True,
+        feature_types: list[FeatureType] | FeatureType | None = None,
+    ):
+        # Created (or retrieved) before subscribing, so that it is always
+        # updated and reset before this observer reads it.
+        self._unscheduled_ops_observer = dispatcher.create_or_get_observer(
             UnscheduledOperationsObserver
         )
+        super().__init__(
+            dispatcher, subscribe=subscribe, feature_types=feature_types
+        )
+
+    def initialize_features(self):
+        unscheduled_ops_observer = self._unscheduled_ops_observer
         for operation in unscheduled_ops_observer.unscheduled_operations:
             if FeatureType.JOBS in self.features:
                 self.features[FeatureType.JOBS][operation.job_id, 0] += 1
